@@ -3,7 +3,7 @@
 import glob, json, os
 root = os.path.dirname(os.path.dirname(os.path.abspath(__file__)))
 rows = {}
-for f in sorted(glob.glob(os.path.join(root, "tools/mutants/sweeps/*.tsv")), key=os.path.getmtime):
+for f in sorted(glob.glob(os.path.join(root, "tools/mutants/sweeps/*.tsv")), key=lambda f_: ("manual" in os.path.basename(f_), os.path.getmtime(f_))):
     for ln in open(f):
         p = ln.rstrip("\n").split("\t")
         if len(p) >= 3 and p[0] != "SWEEP-DONE":
